@@ -4,7 +4,7 @@ from __future__ import annotations
 
 from typing import TYPE_CHECKING, Any
 
-from hypergraph.runners._shared.helpers import collect_as_lists, map_inputs_to_func_params
+from hypergraph.runners._shared.helpers import add_graph_node_emit_signals, collect_as_lists, map_inputs_to_func_params
 
 if TYPE_CHECKING:
     from hypergraph.events.processor import EventProcessor
@@ -69,7 +69,7 @@ class SyncGraphNodeExecutor:
                 event_processors=event_processors,
                 _parent_span_id=parent_span_id,
             )
-            return collect_as_lists(results, node, error_handling)
+            return add_graph_node_emit_signals(node, collect_as_lists(results, node, error_handling))
 
         result = self.runner.run(
             node.graph,
@@ -77,4 +77,4 @@ class SyncGraphNodeExecutor:
             event_processors=event_processors,
             _parent_span_id=parent_span_id,
         )
-        return node.map_outputs_from_original(result.values)
+        return add_graph_node_emit_signals(node, node.map_outputs_from_original(result.values))
